@@ -3,10 +3,40 @@ namespace MaddyVerif.Expect.FuncSkelC08
 
 /-- (declaration, fingerprint of its normalised text): comments, layout, local names and log/trace statements do not count -/
 def funcs : List (String × String) := [
+  ("internal/check/dkim/dkim.go:Check.CheckStateForMsg", "174dcd6e3f004dd8"),
+  ("internal/check/dkim/dkim.go:Check.Init", "61819c91e761ebe7"),
+  ("internal/check/dkim/dkim.go:Check.InstanceName", "13d0cff2584d7cf7"),
+  ("internal/check/dkim/dkim.go:Check.Name", "f4b5cbd10bc445c2"),
+  ("internal/check/dkim/dkim.go:New", "de335e80cafe25ba"),
   ("internal/check/dkim/dkim.go:dkimCheckState.CheckBody", "551e2cec0688c9ba"),
+  ("internal/check/dkim/dkim.go:dkimCheckState.CheckConnection", "603381170359d112"),
+  ("internal/check/dkim/dkim.go:dkimCheckState.CheckRcpt", "6bcd5f295efcc1b1"),
+  ("internal/check/dkim/dkim.go:dkimCheckState.CheckSender", "babaa66d6ac8ce35"),
+  ("internal/check/dkim/dkim.go:dkimCheckState.Close", "ef340145ebab483e"),
+  ("internal/check/dkim/dkim.go:dkimCheckState.Name", "9e2f94f096f084a2"),
+  ("internal/check/dkim/dkim.go:init", "4be97c7185681f15"),
+  ("internal/check/dkim/dkim.go:type Check", "1d8103469dd07626"),
+  ("internal/check/dkim/dkim.go:type dkimCheckState", "d075a36e4b3636c6"),
+  ("internal/modify/dkim/dkim.go:Modifier.Init", "824a91f5b63f1c28"),
+  ("internal/modify/dkim/dkim.go:Modifier.InstanceName", "4bda0c257cdb20c3"),
+  ("internal/modify/dkim/dkim.go:Modifier.ModStateForMsg", "449b2597dc18f8d1"),
+  ("internal/modify/dkim/dkim.go:Modifier.Name", "0b16ee10519143a3"),
   ("internal/modify/dkim/dkim.go:Modifier.fieldsToSign", "4ea1b4c0ead95c26"),
+  ("internal/modify/dkim/dkim.go:New", "9f93ac56933121a1"),
+  ("internal/modify/dkim/dkim.go:fieldCount", "46458b59915ede64"),
+  ("internal/modify/dkim/dkim.go:init", "aad1a70d86b41b75"),
+  ("internal/modify/dkim/dkim.go:state.Close", "bac5772d989647b3"),
   ("internal/modify/dkim/dkim.go:state.RewriteBody", "094d6ee3015addd8"),
+  ("internal/modify/dkim/dkim.go:state.RewriteRcpt", "cbdc265e4df1834b"),
+  ("internal/modify/dkim/dkim.go:state.RewriteSender", "d6824a9018ee0cc5"),
+  ("internal/modify/dkim/dkim.go:type Modifier", "04de41e83d1b8da0"),
+  ("internal/modify/dkim/dkim.go:type state", "3d2bb0e949fe8ad4"),
+  ("internal/smtpconn/smtpconn.go:C.Close", "4f893ccbc167de7b"),
   ("internal/smtpconn/smtpconn.go:C.Data", "e530fddde562e053"),
+  ("internal/smtpconn/smtpconn.go:C.DirectClose", "f652edadea641d3f"),
+  ("internal/smtpconn/smtpconn.go:C.LMTPData", "e179f60ed562690a"),
+  ("internal/smtpconn/smtpconn.go:C.trackData", "b9490563e28a5c19"),
+  ("internal/smtpconn/smtpconn.go:dataWriter.Close", "6d375401e5e39722"),
   ("internal/target/queue/queue.go:Queue.openMessage", "e860a325c84bd4f8"),
   ("internal/target/queue/queue.go:Queue.storeNewMessage", "b3c9b8f26b968111")
 ]
